@@ -65,7 +65,9 @@ def S2(ctx):
         else:
             ctx.ok("S2", anchor, "set_blocked(active) -> schedule on every path", [site_str(prog, s["fn"], s["bb"])])
         ctx.touch(s["fn"], 1)
-    ctx.floor("S2", n, 4, "branch_acquire, branch_disable, park x2")
+    # counted per operation, not per call site (park marks the thread blocked twice on the reference tree; the second call is
+    # redundant and may be removed)
+    ctx.floor("S2", len({enclosing_fn(s_["fn"]) for s_ in sites}), 3, "branch_acquire, branch_disable, park")
 
 
 def followed_by(prog, ea, site, ev, max_depth=8):
